@@ -41,8 +41,17 @@ impl El {
 
     pub fn start_tag(&self) -> String {
         let mut s = format!("<{}", self.tag);
+        // the separator between the tag name / attributes varies with the element (a deterministic function of its
+        // fields, so that the source text of a node never changes): space, tab, LF, or CRLF + indentation as editors
+        // on Windows write multi-line tags
+        let sep = match (self.tag.len() * 7 + self.attrs.len() * 3 + self.attrs.iter().map(|(n, v, _)| n.len() + v.len()).sum::<usize>()) % 7 {
+            0 => "\r\n    ",
+            1 => "\n",
+            2 => "\t",
+            _ => " ",
+        };
         for (n, v, q) in &self.attrs {
-            s.push(' ');
+            s.push_str(sep);
             match q {
                 0 => s.push_str(&format!("{n}={v}")),
                 1 => s.push_str(&format!("{n}=\"{v}\"")),
@@ -597,7 +606,8 @@ pub fn random_filters(rng: &mut Rng, doc: &Doc) -> Vec<DomFilter> {
             action: action.to_string(),
             path,
             selector: random_selector(rng),
-            value: value_subtree(rng, i + 1),
+            // replacing by the empty value is how an element is removed
+            value: if action == "replace" && rng.chance(1, 8) { Node::Frag(Vec::new()) } else { value_subtree(rng, i + 1) },
         });
     }
     out
